@@ -457,6 +457,13 @@ func c20Exec(in []string) []string {
 			x.preset, x.styles, x.fav32, x.fav16 = "https://cdn.test/ui/preset.js", "/assets/ui.css", "/assets/f32.png", "/assets/f16.png"
 		}
 		h := c20UI(kind, proto.UnB(in[2]), proto.UnB(in[3]), proto.UnB(in[4]), proto.UnB(in[5]), "", script, proto.UnB(in[6]), x, next)
+		if vary.pick(2) == 0 {
+			// other documentation middlewares built later in the same process (another API version, another
+			// flavour, the OAuth2 callback page): the page of this one stays what it was
+			for _, k := range []string{kind, "redoc", "rapidoc", "swaggerui", "oauth2"} {
+				_ = c20UI(k, "/decoy", "decoy-docs", "/decoy/swagger.json", "Decoy title & more", "", "", "", c20Extra{}, nil)
+			}
+		}
 		fields, rec, who := c20Observe(vary, h, n, hasNext, proto.UnB(in[8]), proto.UnB(in[9]))
 		title, su := "", ""
 		if who == "self" {
@@ -535,6 +542,12 @@ func c20Exec(in []string) []string {
 			h = ctx.APIHandlerSwaggerUI(build, opts...)
 		default:
 			panic("C20: unknown flavour " + kind)
+		}
+		if vary.pick(2) == 0 {
+			// handlers for the same API built afterwards, with other options: this one's page stays what it was
+			_ = ctx.APIHandler(nil, middleware.WithUITitle("Decoy title & more"), middleware.WithUISpecURL("/decoy/swagger.json"))
+			_ = ctx.APIHandlerSwaggerUI(nil, middleware.WithUIPath("decoy-docs"))
+			_ = ctx.APIHandlerRapiDoc(nil, middleware.WithUIBasePath("/decoy"))
 		}
 		c20WarmUp(vary, h, proto.UnB(in[6]), proto.UnB(in[7]))
 		*rt = c20Builder{}
